@@ -46,8 +46,9 @@ def main():
         import stereomolgraph.coords  # noqa: F401
     logging.disable(logging.NOTSET)
     from vp import harness
-    from vp.harness import (Ctx, HarnessError, Violation, _json_default,
-                            as_violation, match_known, origin_is_repo)
+    from vp.harness import (CaseTimeout, Ctx, HarnessError, Violation,
+                            _json_default, as_violation, case_limit,
+                            match_known, origin_is_repo, time_limit)
     src = os.path.realpath(os.path.dirname(stereomolgraph.__file__))
     if not src.startswith(os.path.realpath(harness.REPO_SRC) + os.sep):
         print(f"fuzzchild: stereomolgraph from {src}", file=sys.stderr)
@@ -115,9 +116,12 @@ def main():
         try:
             case = gen(tape)
             before = ctx.evaluations
-            check(case)
+            with time_limit(case_limit("thorough")):
+                check(case)
             if ctx.evaluations > before:
                 ctx.classes[f"engine:atheris:{name}"] += 1
+        except CaseTimeout:
+            ctx.exclude("case-exceeded-the-time-limit")
         except Violation as v:
             record(v, case)
         except HarnessError as e:
